@@ -233,6 +233,20 @@ theorem c19_content_csp_sandboxed (cfg : Config) (view : View) (route : Route) (
       · exact Or.inr (Or.inr ⟨q, hq, rfl⟩)
       · exact Or.inr (Or.inl hs)
 
+/-- A preview page (any template naming the inscription) carries exactly the per-media policy of
+`preview_content_security_policy`, never the permissive content policy. -/
+theorem c19_preview_page_policy (cfg : Config) (id : Id) (m : Media) (k : String) (j : Id)
+    (h : (previewPage cfg id m).body = .tmpl k (some j)) :
+    ∃ v, previewCsp cfg.origin m = some v ∧ (previewPage cfg id m).csp = [v] ∧ j = id ∧
+      (previewPage cfg id m).served = none := by
+  unfold previewPage at h ⊢
+  split
+  · rename_i hn; simp [hn, internalError] at h
+  · rename_i v hv
+    simp only [hv] at h
+    refine ⟨v, hv, rfl, ?_, rfl⟩
+    cases m <;> simp at h <;> exact h.2.symm
+
 /-! ## clause 4 — hidden content is never served -/
 
 /-- witness: inscription 0 (body `hi`) is hidden, inscription 1 is visible and delegates to 0 -/
